@@ -172,6 +172,7 @@ def rtCell : CellIds := ⟨0, 0, some 1, some 2⟩
 `style update <pinned 0/1> <Sty> <ParaArc>` → `ok <ParaArc>`                          (`update_paragraph_style`)
 `style read <n> (<id> P <ParaArc> | <id> C <CellArc>)*n <TableCtx> <Images> <CellIds>` → `ok <Sty>`   (`Style.from_storage`)
 `style roundtrip <Sty> <Images>`           → `ok <Sty>`   (what a reload reads of a cell that was given the style)
+`style ids <nextKey> <k> (<key> <obj>)*k <n> (<CellIds> N | <CellIds> S <opt text obj> <opt cell obj>)*n` → `ok (<opt text id> <opt cell id>)*n | <list>`  (`Cell._to_buffer`, row-major)
 `style align <h> <v>`                      → `ok <h> <v>` (`Alignment(h, v)` on names)
 `style font <family>`                      → `ok <name>`  (`FONT_FAMILY_TO_NAME[family]`)
 `style chan <c>`                           → `ok <stored float> <read back>`
@@ -198,6 +199,18 @@ def handleStyleStore : List String → Option String
       let (c, imgs') ← addCellStyle Num.ieee s imgs
       fromStorage Num.ieee [(1, .para p), (2, .cell c)] rtTable imgs' rtCell
     pure (showPyM shSty r)
+  | "ids" :: rest => do
+    let (dl, cells) ← runSP (do
+      let nk ← spNat
+      let es ← spCounted (do let k ← spNat; let v ← spNat; pure (k, v))
+      let cells ← spCounted (do
+        let c ← spCell
+        let sty ← spOpt (do let a ← spOpt spNat; let b ← spOpt spNat; pure (a, b))
+        pure (c, sty))
+      pure ((⟨es, nk⟩ : StyleList), cells)) rest
+    let r := toBufferAll dl cells
+    pure ("ok " ++ " ".intercalate (r.1.map fun c => shOpt toString c.textStyleId ++ " " ++ shOpt toString c.cellStyleId)
+      ++ " | " ++ shCounted (fun e => s!"{e.1} {e.2}") r.2.entries)
   | ["align", h, v] => do
     let h ← parseText h; let v ← parseText v
     pure (showPyM (fun p => s!"{p.1} {p.2}") (alignmentOfNames h v))
